@@ -548,3 +548,58 @@ def falsify_natively(ob_fn, inst: Instance, seed=0, tries=60):
         if ok:
             return vals, detail
     return None, ""
+
+
+class _Sampler(dict):
+    """input values for a native run, drawn when the harness asks for them"""
+
+    def __init__(self, rnd):
+        super().__init__()
+        self.rnd = rnd
+
+    def get(self, name, default=None):
+        if name not in self:
+            r, kind = self.rnd, self.rnd.random()
+            if isinstance(default, bool):
+                v = r.random() < 0.5
+            elif isinstance(default, int) and not isinstance(default, bool):
+                v = r.choice([0, 1, 2, 3, 6, 9])
+            elif isinstance(default, str):
+                v = default
+            elif kind < 0.1:
+                v = r.choice([1e-7, 3e-9, -2e-8, 1e-05, 5e-10, 1e-10])
+            elif kind < 0.35:
+                v = float(r.randint(-9, 9))
+            elif kind < 0.7:
+                v = r.choice([-1, 1]) * r.choice([0.25, 0.5, 1.5, 2.75, 7.0, 12.5, 33.0, 100.0, 181.0, 275.0, 359.5, 400.0, 1000.0])
+            else:
+                v = r.uniform(-400, 400)
+            self[name] = v
+        return self[name]
+
+
+def native_fallback(ob_fn, case_sets, seed=0, tries=40):
+    """The interpreter could not execute the code (a construct it does not model).  Run the harness natively instead, on sampled
+    inputs, for the given case combinations: a failing `prove` is a violation witnessed on the real code; finding none decides
+    nothing.  -> list of (label, cases, inputs, detail)"""
+    import random
+
+    hits, seen = [], set()
+    for cases in case_sets or [{}]:
+        rnd = random.Random(f"{seed}:{sorted(cases.items(), key=str)}")
+        for _ in range(tries):
+            sink, vals = [], _Sampler(rnd)
+            H = Harness("concrete", None, values=vals, cases=cases, sink=sink)
+            try:
+                ob_fn(H)
+            except (PathInfeasible, StopPath):
+                pass
+            except Exception:  # noqa - a native crash of the harness is not a verdict
+                break
+            for r in sink:
+                if r.status == "replay-fail" and (r.label, str(sorted(cases.items(), key=str))) not in seen:
+                    seen.add((r.label, str(sorted(cases.items(), key=str))))
+                    hits.append((r.label, dict(cases), dict(vals), r.detail))
+            if hits and len(seen) >= 3:
+                break
+    return hits
